@@ -19,6 +19,22 @@ abbrev Idna := List Char → Except String (List Char)
 /-- `s.partition(":")[0]` -/
 def beforeColon (s : List Char) : List Char := s.takeWhile (· != ':')
 
+/-- `_strip_port(host)` (as repaired by ede13ce): a host that starts with `[` keeps everything up to
+and including the first `]` when that bracket ends the string or is followed by `:`; when there is
+no `]`, or something else follows it, the host is left unchanged; any other host is cut at its
+first `:` -/
+def stripPort : List Char → List Char
+  | '[' :: rest =>
+    let body := rest.takeWhile (· != ']')
+    match rest.dropWhile (· != ']') with
+    | [] => '[' :: rest                                   -- no closing bracket
+    | _ :: after =>
+      match after with
+      | [] => '[' :: rest
+      | ':' :: _ => '[' :: body ++ [']']
+      | _ => '[' :: rest                                  -- garbage after the bracket: not stripped
+  | s => beforeColon s
+
 /-- `hostname.endswith(suffix)` -/
 def endsWith (s suffix : List Char) : Bool := suffix.isSuffixOf s
 
@@ -32,7 +48,7 @@ check with `False` (as coded) -/
 def matchRefs (idna : Idna) (hn : List Char) : List (List Char) → Bool
   | [] => false
   | ref :: rest =>
-    match idna (beforeColon (refParts ref).2) with
+    match idna (stripPort (refParts ref).2) with
     | .error _ => false
     | .ok rn =>
       if rn == hn || ((refParts ref).1 && endsWith hn ('.' :: rn)) then true
@@ -44,7 +60,7 @@ def hostIsTrusted (idna : Idna) (host : Option (List Char)) (trusted : List (Lis
   | none => false
   | some [] => false
   | some h =>
-    match idna (beforeColon h) with
+    match idna (stripPort h) with
     | .error _ => false
     | .ok hn => matchRefs idna hn trusted
 
@@ -108,6 +124,10 @@ inductive Cookie where
 inductive Trust where
   | yes | no | bad
   deriving Repr, DecidableEq
+
+def Trust.isYes : Trust → Bool
+  | .yes => true
+  | _ => false
 
 def checkPinTrust (pinOn : Bool) (c : Cookie) : Trust :=
   if !pinOn then .yes else
@@ -174,6 +194,60 @@ def runIdeal (failed : Nat) : List Attempt → List PinResult × Nat
     let (rs, f'') := runIdeal f' rest
     (r :: rs, f'')
 
+/-! ### sessions: PIN attempts, PIN changes, cookie reuse
+
+The PIN can be changed at run time (`app.pin = new`). A cookie stores the hash of the PIN it was
+issued for; `check_pin_trust` compares it with the hash of the *current* PIN. PINs are abstracted to
+generations (a change increments the generation); the client keeps the last cookie it was issued. -/
+
+structure Session where
+  failed : UInt8 := 0
+  /-- generation of the current PIN -/
+  gen : Nat := 0
+  /-- generation of the PIN whose hash the client's cookie carries -/
+  held : Option Nat := none
+  deriving Repr
+
+inductive Act where
+  | right     -- pinauth without cookie, the current PIN entered
+  | wrong     -- pinauth without cookie, a wrong PIN entered
+  | stale     -- pinauth with a cookie whose hash never was a PIN's
+  | change    -- the application's PIN is changed
+  | reuse     -- pinauth with the held cookie, a wrong PIN entered
+  | eval      -- eval in a frame with the held cookie (secret, Host, frame, evalex all right)
+  deriving Repr, DecidableEq
+
+inductive Obs where
+  | pin (r : PinResult)
+  | evalRan (ran : Bool)
+  | changed
+  deriving Repr, DecidableEq
+
+/-- `check_pin_trust` for the held cookie (fresh timestamps: expiry is not part of sessions) -/
+def heldTrust (s : Session) : Trust :=
+  match s.held with
+  | none => .no
+  | some g => if g == s.gen then .yes else .bad
+
+def actStep (s : Session) : Act → Obs × Session
+  | .right =>
+    let (r, f) := pinAuth s.failed .no true
+    (.pin r, { s with failed := f, held := if r.auth then some s.gen else s.held })
+  | .wrong => let (r, f) := pinAuth s.failed .no false; (.pin r, { s with failed := f })
+  | .stale => let (r, f) := pinAuth s.failed .bad false; (.pin r, { s with failed := f })
+  | .change => (.changed, { s with gen := s.gen + 1 })
+  | .reuse =>
+    let (r, f) := pinAuth s.failed (heldTrust s) false
+    (.pin r, { s with failed := f, held := if r.auth then some s.gen else s.held })
+  | .eval => (.evalRan (heldTrust s).isYes, s)
+
+def runSession (s : Session) : List Act → List Obs × Session
+  | [] => ([], s)
+  | a :: rest =>
+    let (o, s') := actStep s a
+    let (os, s'') := runSession s' rest
+    (o :: os, s'')
+
 /-! ### dispatch -/
 
 /-- the `cmd` query argument -/
@@ -223,10 +297,6 @@ inductive Outcome where
 
 def Secret.isRight : Secret → Bool
   | .right => true
-  | _ => false
-
-def Trust.isYes : Trust → Bool
-  | .yes => true
   | _ => false
 
 def Cmd.isSome : Cmd → Bool
